@@ -4,8 +4,11 @@ import (
 	"fmt"
 	"go/ast"
 	"os"
+	"runtime/debug"
 	"sort"
 	"strings"
+	"sync"
+	"sync/atomic"
 	"time"
 
 	"golang.org/x/tools/go/ssa"
@@ -25,6 +28,7 @@ type HarnessCfg struct {
 	Tier          string
 	Verbose       bool
 	MaxViolations int
+	Workers       int
 }
 
 func defaultCfg() *HarnessCfg {
@@ -108,12 +112,60 @@ func (r *HarnessResult) noteInconclusive(msg string) {
 	}
 }
 
-// runHarness explores all paths of one harness function.
+// cpuTokens bounds the number of paths executing at any time across all harnesses.
+var cpuTokens chan struct{}
+
+type workQueue struct {
+	mu      sync.Mutex
+	cond    *sync.Cond
+	items   [][]decision
+	active  int
+	stopped bool
+	paths   int
+}
+
+func (q *workQueue) pop() ([]decision, bool) {
+	q.mu.Lock()
+	defer q.mu.Unlock()
+	for len(q.items) == 0 && q.active > 0 && !q.stopped {
+		q.cond.Wait()
+	}
+	if q.stopped || len(q.items) == 0 {
+		q.cond.Broadcast()
+		return nil, false
+	}
+	it := q.items[len(q.items)-1]
+	q.items = q.items[:len(q.items)-1]
+	q.active++
+	q.paths++
+	return it, true
+}
+
+func (q *workQueue) done(alts [][]decision) {
+	q.mu.Lock()
+	q.items = append(q.items, alts...)
+	q.active--
+	q.cond.Broadcast()
+	q.mu.Unlock()
+}
+
+func (q *workQueue) stop() {
+	q.mu.Lock()
+	q.stopped = true
+	q.cond.Broadcast()
+	q.mu.Unlock()
+}
+
+func newPartial(fn *ssa.Function) *HarnessResult {
+	return &HarnessResult{Name: fn.Name(), Pkg: strings.TrimPrefix(fn.Pkg.Pkg.Path(), "github.com/NethermindEth/juno/"),
+		AssertsReached: map[string]int{}, Covers: map[string]int{}, Panics: map[string]int{}, witSigs: map[string]bool{}}
+}
+
+// runHarness explores all paths of one harness function (several workers share the prefix queue;
+// every worker has its own interpreter state, term store and solver process).
 func runHarness(prog *ssa.Program, fn *ssa.Function, cfg *HarnessCfg) *HarnessResult {
 	t0 := time.Now()
-	res := &HarnessResult{Name: fn.Name(), Pkg: strings.TrimPrefix(fn.Pkg.Pkg.Path(), "github.com/NethermindEth/juno/"), AssertsReached: map[string]int{}, Covers: map[string]int{}, Panics: map[string]int{}}
-	stats := &SolverStats{}
-	st := NewTermStore()
+	res := newPartial(fn)
 	// per-harness directives in the doc comment: //vx:solver <kind>, //vx:solver-timeout <ms>
 	if fd, ok := fn.Syntax().(*ast.FuncDecl); ok && fd.Doc != nil {
 		for _, c := range fd.Doc.List {
@@ -130,170 +182,289 @@ func runHarness(prog *ssa.Program, fn *ssa.Function, cfg *HarnessCfg) *HarnessRe
 		}
 	}
 	res.Solver = cfg.Solver
-	sol, err := NewSolver(cfg.Solver, st, cfg.SolverTimeout, stats)
-	if err != nil {
-		res.Inconclusive = append(res.Inconclusive, "solver start: "+err.Error())
-		return res
+	q := &workQueue{items: [][]decision{nil}}
+	q.cond = sync.NewCond(&q.mu)
+	nw := cfg.Workers
+	if nw < 1 {
+		nw = 1
 	}
-	defer sol.Close()
-	if lf := os.Getenv("GOSYM_SMTLOG"); lf != "" {
-		f, _ := os.Create(lf + "." + fn.Name() + ".smt2")
-		sol.log = f
-		defer f.Close()
-	}
-	in := &Interp{prog: prog, st: st, sol: sol, cfg: cfg, globals: map[*ssa.Global]*Object{}, initDone: map[*ssa.Package]bool{},
-		finfo: map[*ssa.Function]*fnInfo{}, feasCache: map[string]Result{}, stats: stats, res: res,
-		funcsSeen: map[string]bool{}, extra: map[string]interface{}{}}
-	in.mergeSet = append([]string{}, defaultMergeSet...)
-	in.nextObj = 1 << 20 // ids below are reserved for globals/init-time objects: always journaled
-	baseCfg := *cfg
-	work := [][]decision{nil}
-	lastPrint := time.Now()
-	stubSeen := map[string]bool{}
-	boundSeen := map[string]bool{}
-	for len(work) > 0 {
-		if res.Paths >= cfg.MaxPaths {
-			res.noteInconclusive(fmt.Sprintf("path budget (%d) exhausted with %d prefixes pending", cfg.MaxPaths, len(work)))
-			break
-		}
-		if time.Since(t0) > time.Duration(cfg.MaxSeconds)*time.Second {
-			res.noteInconclusive(fmt.Sprintf("time budget (%ds) exhausted with %d prefixes pending", cfg.MaxSeconds, len(work)))
-			break
-		}
-		if len(res.Violations) >= cfg.MaxViolations {
-			res.noteInconclusive("stopped after max violations")
-			break
-		}
-		prefix := work[len(work)-1]
-		work = work[:len(work)-1]
-		res.Paths++
-		// reset path state
-		*in.cfg = baseCfg
-		in.pc = nil
-		in.pcKey = [32]byte{}
-		in.ctx = &decisionCtx{prefix: prefix}
-		in.hasUnknown = false
-		in.steps = 0
-		in.callDepth = 0
-		in.nameCount = map[string]int{}
-		in.inputs = nil
-		in.pathCovers = nil
-		in.observes = map[string]string{}
-		in.stubs = nil
-		in.opaque = map[string]*opaqueBlob{}
-		in.failAt = map[string]int{}
-		in.freezeOn = false
-		in.mergeDepth = 0
-		in.noMerge = false
-		in.pathViolations = 0
-		in.mergeSet = append(in.mergeSet[:0], defaultMergeSet...)
-		in.journal = in.journal[:0]
-		in.journalOn = true
-		in.journalWater = 1 << 20
-		in.initMode = 0
-		for k := range in.extra {
-			delete(in.extra, k)
-		}
-		sol.Reset()
-		end := "done"
-		func() {
+	parts := make([]*HarnessResult, nw)
+	statsAll := make([]*SolverStats, nw)
+	funcs := make([]map[string]bool, nw)
+	stubSeen := make([]map[string]bool, nw)
+	boundSeen := make([]map[string]bool, nw)
+	var wg sync.WaitGroup
+	var violCount int64
+	var lastPrint = time.Now()
+	var printMu sync.Mutex
+	for w := 0; w < nw; w++ {
+		wg.Add(1)
+		go func(w int) {
+			defer wg.Done()
+			part := newPartial(fn)
+			parts[w] = part
 			defer func() {
 				if r := recover(); r != nil {
-					switch e := r.(type) {
-					case pathEnd:
-						end = e.kind
-						switch e.kind {
-						case "assume", "stop":
-						default:
-							res.noteInconclusive(e.kind + ": " + e.msg)
-						}
-					case *GoPanic:
-						end = "panic"
-						key := e.msg
-						res.Panics[key]++
-						// an escaping panic is a violation (harnesses that expect panics recover them)
-						in.reportViolation("panic", "uncaught panic: "+e.msg, nil)
-					case mergeFail:
-						end = "unsupported"
-						res.noteInconclusive("merge failure escaped: " + e.why)
-					default:
-						panic(r)
-					}
+					part.noteInconclusive(fmt.Sprintf("engine crash: %v\n%s", r, debug.Stack()))
+					q.stop()
 				}
 			}()
-			in.callFunction(fn, nil, nil)
-		}()
-		if end == "done" && len(res.Witnesses) < 12 && !in.hasUnknown {
-			sig := strings.Join(in.pathCovers, ",")
-			if res.witSigs == nil {
-				res.witSigs = map[string]bool{}
-			}
-			if !res.witSigs[sig] {
-				res.witSigs[sig] = true
-				if sol.Check() == Sat {
-					if m, ok := in.modelStrings(); ok {
-						res.Witnesses = append(res.Witnesses, Witness{Model: m, Covers: append([]string{}, in.pathCovers...), Violated: in.pathViolations > 0})
+			stats := &SolverStats{}
+			statsAll[w] = stats
+			stubSeen[w] = map[string]bool{}
+			boundSeen[w] = map[string]bool{}
+			var in *Interp
+			var sol *Solver
+			wcfg := *cfg
+			baseCfg := *cfg
+			for {
+				prefix, ok := q.pop()
+				if !ok {
+					break
+				}
+				if in == nil {
+					// lazily: a worker that never gets work does not start a solver
+					st := NewTermStore()
+					var err error
+					sol, err = NewSolver(cfg.Solver, st, cfg.SolverTimeout, stats)
+					if err != nil {
+						part.noteInconclusive("solver start: " + err.Error())
+						q.done(nil)
+						q.stop()
+						break
 					}
+					defer sol.Close()
+					if lf := os.Getenv("GOSYM_SMTLOG"); lf != "" && w == 0 {
+						f, _ := os.Create(lf + "." + fn.Name() + ".smt2")
+						sol.log = f
+						defer f.Close()
+					}
+					in = &Interp{prog: prog, st: st, sol: sol, cfg: &wcfg, globals: map[*ssa.Global]*Object{}, initDone: map[*ssa.Package]bool{},
+						finfo: map[*ssa.Function]*fnInfo{}, feasCache: map[string]Result{}, stats: stats, res: part,
+						funcsSeen: map[string]bool{}, extra: map[string]interface{}{}}
+					funcs[w] = in.funcsSeen
+					in.nextObj = 1 << 20 // ids below are reserved for globals/init-time objects: always journaled
+				}
+				if q.paths > cfg.MaxPaths {
+					part.noteInconclusive(fmt.Sprintf("path budget (%d) exhausted", cfg.MaxPaths))
+					q.done(nil)
+					q.stop()
+					break
+				}
+				if time.Since(t0) > time.Duration(cfg.MaxSeconds)*time.Second {
+					part.noteInconclusive(fmt.Sprintf("time budget (%ds) exhausted with prefixes pending", cfg.MaxSeconds))
+					q.done(nil)
+					q.stop()
+					break
+				}
+				if atomic.LoadInt64(&violCount) >= int64(cfg.MaxViolations) {
+					part.noteInconclusive("stopped after max violations")
+					q.done(nil)
+					q.stop()
+					break
+				}
+				cpuTokens <- struct{}{}
+				part.Paths++
+				nviol := len(part.Violations)
+				alts := in.runPath(fn, prefix, &baseCfg, stubSeen[w], boundSeen[w])
+				<-cpuTokens
+				atomic.AddInt64(&violCount, int64(len(part.Violations)-nviol))
+				q.done(alts)
+				if cfg.Verbose {
+					printMu.Lock()
+					if time.Since(lastPrint) > 10*time.Second {
+						lastPrint = time.Now()
+						q.mu.Lock()
+						fmt.Fprintf(os.Stderr, "[%s] paths=%d pending=%d active=%d t=%.0fs\n", fn.Name(), q.paths, len(q.items), q.active, time.Since(t0).Seconds())
+						q.mu.Unlock()
+					}
+					printMu.Unlock()
 				}
 			}
+		}(w)
+	}
+	wg.Wait()
+	// merge partial results
+	stats := &SolverStats{}
+	fset := map[string]bool{}
+	sset := map[string]bool{}
+	bset := map[string]bool{}
+	for w, p := range parts {
+		if p == nil {
+			continue
 		}
-		in.rollback(0)
-		res.Steps += in.steps
-		switch end {
-		case "done", "panic":
-			res.PathsDone++
-		case "assume":
-			res.PathsAssumeCut++
+		res.Paths += p.Paths
+		res.PathsDone += p.PathsDone
+		res.PathsAssumeCut += p.PathsAssumeCut
+		res.Steps += p.Steps
+		res.UnknownBranches += p.UnknownBranches
+		res.UnknownAsserts += p.UnknownAsserts
+		res.AssertQueries += p.AssertQueries
+		res.MergeSites += p.MergeSites
+		res.MergeAbandoned += p.MergeAbandoned
+		res.Violations = append(res.Violations, p.Violations...)
+		for _, m := range p.Inconclusive {
+			res.noteInconclusive(m)
 		}
-		if end == "done" || end == "panic" || end == "assume" {
-			for _, c := range in.pathCovers {
-				res.Covers[c]++
+		for k, v := range p.AssertsReached {
+			res.AssertsReached[k] += v
+		}
+		for k, v := range p.Covers {
+			res.Covers[k] += v
+		}
+		for k, v := range p.Panics {
+			res.Panics[k] += v
+		}
+		for _, smp := range p.Samples {
+			if len(res.Samples) < 6 {
+				res.Samples = append(res.Samples, smp)
 			}
 		}
-		if len(res.Samples) < 6 && (end == "done" || end == "panic") {
-			res.Samples = append(res.Samples, PathSample{Covers: append([]string{}, in.pathCovers...), Decisions: len(in.ctx.trace), Steps: in.steps, End: end})
-		}
-		if len(in.observes) > 0 && len(res.Observes) < 8 {
-			res.Observes = append(res.Observes, in.observes)
-		}
-		for k := range in.stubs {
-			stubSeen[k] = true
-		}
-		if bs, ok := in.extra["bounds"].([]string); ok {
-			for _, b := range bs {
-				boundSeen[b] = true
+		for _, wt := range p.Witnesses {
+			sig := strings.Join(wt.Covers, ",")
+			if !res.witSigs[sig] && len(res.Witnesses) < 12 {
+				res.witSigs[sig] = true
+				res.Witnesses = append(res.Witnesses, wt)
 			}
 		}
-		work = append(work, in.ctx.alts...)
-		if cfg.Verbose && (res.Paths%50 == 0 || time.Since(lastPrint) > 10*time.Second) {
-			lastPrint = time.Now()
-			fmt.Fprintf(os.Stderr, "[%s] paths=%d pending=%d queries=%d solver=%.1fs\n", fn.Name(), res.Paths, len(work), stats.Queries, stats.Time.Seconds())
+		if len(res.Observes) < 8 {
+			res.Observes = append(res.Observes, p.Observes...)
+		}
+		if s := statsAll[w]; s != nil {
+			stats.Queries += s.Queries
+			stats.Sat += s.Sat
+			stats.Unsat += s.Unsat
+			stats.Unknown += s.Unknown
+			stats.Errors += s.Errors
+			stats.Time += s.Time
+		}
+		for f := range funcs[w] {
+			fset[f] = true
+		}
+		for k := range stubSeen[w] {
+			sset[k] = true
+		}
+		for k := range boundSeen[w] {
+			bset[k] = true
 		}
 	}
 	res.Queries = SolverStatsJSON{Total: stats.Queries, Sat: stats.Sat, Unsat: stats.Unsat, Unknown: stats.Unknown, Errors: stats.Errors, SolverS: stats.Time.Seconds()}
 	if stats.Errors > 0 {
 		res.noteInconclusive(fmt.Sprintf("%d solver (error ...) responses", stats.Errors))
 	}
-	for f := range in.funcsSeen {
+	for f := range fset {
 		if strings.Contains(f, "NethermindEth/juno") || strings.HasPrefix(f, "[model]") {
 			res.Functions = append(res.Functions, f)
 		}
 	}
 	sort.Strings(res.Functions)
-	for k := range stubSeen {
-		res.Stubs = append(res.Stubs, k)
-	}
-	sort.Strings(res.Stubs)
-	for k := range boundSeen {
-		res.Bounds = append(res.Bounds, k)
-	}
-	sort.Strings(res.Bounds)
+	res.Stubs = sortedKeys(sset)
+	res.Bounds = sortedKeys(bset)
 	for l := range res.AssertsReached {
 		res.AssertLabels = append(res.AssertLabels, l)
 	}
 	sort.Strings(res.AssertLabels)
 	res.WallS = time.Since(t0).Seconds()
 	return res
+}
+
+// runPath executes one path (decision prefix) and returns the alternative prefixes it discovered.
+func (in *Interp) runPath(fn *ssa.Function, prefix []decision, baseCfg *HarnessCfg, stubSeen, boundSeen map[string]bool) [][]decision {
+	res := in.res
+	sol := in.sol
+	*in.cfg = *baseCfg
+	in.pc = nil
+	in.pcKey = [32]byte{}
+	in.ctx = &decisionCtx{prefix: prefix}
+	in.hasUnknown = false
+	in.steps = 0
+	in.callDepth = 0
+	in.nameCount = map[string]int{}
+	in.inputs = nil
+	in.pathCovers = nil
+	in.observes = map[string]string{}
+	in.stubs = nil
+	in.opaque = map[string]*opaqueBlob{}
+	in.failAt = map[string]int{}
+	in.freezeOn = false
+	in.mergeDepth = 0
+	in.noMerge = false
+	in.pathViolations = 0
+	in.mergeSet = append(in.mergeSet[:0], defaultMergeSet...)
+	in.journal = in.journal[:0]
+	in.journalOn = true
+	in.journalWater = 1 << 20
+	in.initMode = 0
+	for k := range in.extra {
+		delete(in.extra, k)
+	}
+	sol.Reset()
+	end := "done"
+	func() {
+		defer func() {
+			if r := recover(); r != nil {
+				switch e := r.(type) {
+				case pathEnd:
+					end = e.kind
+					switch e.kind {
+					case "assume", "stop":
+					default:
+						res.noteInconclusive(e.kind + ": " + e.msg)
+					}
+				case *GoPanic:
+					end = "panic"
+					res.Panics[e.msg]++
+					// an escaping panic is a violation (harnesses that expect panics recover them)
+					in.reportViolation("panic", "uncaught panic: "+e.msg, nil)
+				case mergeFail:
+					end = "unsupported"
+					res.noteInconclusive("merge failure escaped: " + e.why)
+				default:
+					panic(r)
+				}
+			}
+		}()
+		in.callFunction(fn, nil, nil)
+	}()
+	if end == "done" && len(res.Witnesses) < 12 && !in.hasUnknown {
+		sig := strings.Join(in.pathCovers, ",")
+		if !res.witSigs[sig] {
+			res.witSigs[sig] = true
+			if sol.Check() == Sat {
+				if m, ok := in.modelStrings(); ok {
+					res.Witnesses = append(res.Witnesses, Witness{Model: m, Covers: append([]string{}, in.pathCovers...), Violated: in.pathViolations > 0})
+				}
+			}
+		}
+	}
+	in.rollback(0)
+	res.Steps += in.steps
+	switch end {
+	case "done", "panic":
+		res.PathsDone++
+	case "assume":
+		res.PathsAssumeCut++
+	}
+	if end == "done" || end == "panic" || end == "assume" {
+		for _, c := range in.pathCovers {
+			res.Covers[c]++
+		}
+	}
+	if len(res.Samples) < 6 && (end == "done" || end == "panic") {
+		res.Samples = append(res.Samples, PathSample{Covers: append([]string{}, in.pathCovers...), Decisions: len(in.ctx.trace), Steps: in.steps, End: end})
+	}
+	if len(in.observes) > 0 && len(res.Observes) < 8 {
+		res.Observes = append(res.Observes, in.observes)
+	}
+	for k := range in.stubs {
+		stubSeen[k] = true
+	}
+	if bs, ok := in.extra["bounds"].([]string); ok {
+		for _, b := range bs {
+			boundSeen[b] = true
+		}
+	}
+	return in.ctx.alts
 }
 
 var defaultMergeSet = []string{}
